@@ -15,13 +15,27 @@ META = {
             'still behave differently from the library build (once-only inclusion landing inside another feature\'s #ifdef), the '
             'header alone and the library sources are also compiled under every single feature macro and must agree; and, '
             'independently of generator and model, the header must carry the block of every library source exactly once and a '
-            'translation unit including it must define every function the library objects define (nm).',
+            'translation unit including it must define every function the library objects define (nm). The behaviour clause is also '
+            'checked on whole processes (harness/h_header_exit.cpp: the same program - logging set up and used by a global object before '
+            'main, file sinks left unflushed at return/exit/qFatal - built against the library and header-only; exit status or signal, '
+            'stdout, stderr and the files left behind must be identical) and statically on the conditional compilation of the sources: '
+            'every #if/#ifdef group is observed with g++ -E in the library build (-DQTLOGGER_STATIC -DQTLOGGER_LIBRARY) and in a header-only '
+            'user\'s build; a group that is entered in one and skipped in the other must be on the list of known switches '
+            '(KNOWN_CONDITIONALS, a reason per entry); an extracted Gallina model of conditional groups / define / include / pragma once '
+            'predicts the groups g++ enters, in order, for every translation unit, and C20_branches_confined_to_known_groups proves for '
+            'every tree that the decision the check evaluates implies that both builds see the same text outside the known groups.',
     'note': 'Trusted: Coq 8.16.1 kernel, no axioms; extraction (ExtrOcamlBasic) + ocaml/drv_amalgam.ml (loads src/ into the '
             'abstract tree); python3 running tools/gen_qtlogger.h.py on a scratch copy; checks/c20.py (byte comparison, diff). '
             'The model is hand-written from the generator (regexes, os.path.join/abspath/exists, glob, sorted): its tie to the '
             'generator is leg (iii) on the real tree and on edited trees, not a proof. Outside the model: includes that resolve '
             'outside src/ (absolute paths, above the repository root), CR line ends (universal newlines), Unicode white space '
-            'in directives, symbolic links, a repository path containing a component called build.',
+            'in directives, symbolic links, a repository path containing a component called build. Conditional-group model: tracks the '
+            'QTLOGGER_* macros only (conditions mentioning anything else are opaque: their truth comes from what g++ -E did), sees '
+            'directives only - that a known chain guards nothing but its define is a regex in checks/c20.py; macro EXPANSION differences '
+            '(QTLOGGER_DECL_SPEC = inline, QTLOGGER_EXPORT) are outside it. The scanner/translator checks/c20_cond.py and the marker '
+            'pragmas inserted into a scratch copy are trusted; their tie to g++ is the per-translation-unit comparison. Whole-process leg: '
+            'differential only (library vs header-only), digits and the scratch path are canonicalised; link order application-object-'
+            'first, static library after it (GNU ld initialisation order).',
     'design_ref': 'DESIGN.md section 4, C20',
     'engine': 'coq+extraction+python-generator',
 }
@@ -810,7 +824,7 @@ def conditional_leg(chk, repo):
 # ---- whole-process behaviour: the same PROGRAM (harness/h_header_exit.cpp) built against the library and header-only;
 #      compared after the process ended: exit status / signal, stdout, stderr, the files it left ------------------------
 N_TEMPLATES = 8          # kTemplates in harness/h_header_exit.cpp
-EARLY_OPS = ('fs', 'rs', 'cfg', 'stf', 'log', 'clog', 'flush', 'own', 'pat', 'restore')
+EARLY_OPS = ('fs', 'rs', 'cfg', 'stf', 'log', 'clog', 'flush', 'own', 'pat', 'pipe', 'restore')
 
 
 def prog_text(p):
@@ -827,7 +841,7 @@ def op_kinds(ops):
 
 
 def random_op(rng, early):
-    k = rng.choice(['fs', 'fs', 'rs', 'cfg', 'cfg', 'stf', 'log', 'log', 'log', 'clog', 'flush', 'own', 'pat', 'restore'] + ([] if early else ['app', 'app']))
+    k = rng.choice(['fs', 'fs', 'rs', 'cfg', 'cfg', 'stf', 'log', 'log', 'log', 'clog', 'flush', 'own', 'pat', 'pipe', 'pipe', 'restore'] + ([] if early else ['app', 'app']))
     t = rng.randrange(N_TEMPLATES)
     if k == 'fs':
         return 'fs:%d:%d:%d' % (t, rng.choice([0, 1, 1, 2, 3, 5]), rng.choice([0, 0, 1, 2]))
@@ -844,6 +858,8 @@ def random_op(rng, early):
         return 'own:%d:%d' % (t, rng.choice([0, 1, 3]))
     if k == 'pat':
         return 'pat:%d' % rng.randrange(3)
+    if k == 'pipe':
+        return 'pipe:%d:%d:%d' % (rng.randrange(4), t, rng.choice([1, 4, 7, 12]))
     return k
 
 
@@ -860,10 +876,19 @@ def exit_programs(chk, n_random):
             'cfg:0:0:0:0,log:2/app,log:1/ret:0',         # ... and used by that global object itself
             'stf:3/log:2/exit:1', 'stf:0,log:2/app,log:1/ret:0',
             'fs:7:1:0//ret:0', 'rs:7:60:2:2:0/fs:7:1:2/ret:0', 'cfg:7:0:0:0,log:1/log:1/exit:0',   # a log file that cannot be opened
+            'pipe:0:0:7,pipe:1:4:7/pipe:2:0:7,pipe:3:4:7/ret:0',      # filters and formatters used before main()
             'own:0:2/own:4:1/ret:0', 'pat:0,pat:1/pat:2/ret:7',
             '/stf:0,log:2/fatal', '/app,cfg:0:0:0:0,log:1/fatal', '/stf:0,log:3/qexit:2', 'stf:0,log:1,eexit:4//ret:0',
             '/stf:0,log:1,restore,log:1/ret:0', '/app,cfg:5:0:0:0,log:1,flush,log:1/ret:0']
-    progs = [prog_of_text(b) for b in base]
+    progs = []
+    cdir = os.path.join(vlib.VERIF, 'corpus', 'C20')
+    for fn in sorted(os.listdir(cdir)) if os.path.isdir(cdir) else []:
+        try:
+            for e in json.load(open(os.path.join(cdir, fn))).get('programs', []):
+                progs.append(prog_of_text(e['program']))
+        except Exception:
+            pass
+    progs += [prog_of_text(b) for b in base if prog_of_text(b) not in progs]
     rng = chk.rng
     for _ in range(n_random):
         early = [random_op(rng, True) for _ in range(rng.choice([0, 0, 1, 1, 2, 3]))]
@@ -940,7 +965,8 @@ def simplify_ops(prog, differs):
     # (field index, smaller value) per op kind; every candidate is built from the CURRENT op
     smaller = {'log': [(1, '1')], 'clog': [(0, 'log'), (1, '1')], 'stf': [(1, '0')], 'own': [(1, '0'), (2, '0'), (2, '1')],
                'cfg': [(1, '0'), (4, '0'), (2, '0'), (3, '0')], 'fs': [(1, '0'), (2, '0'), (2, '1'), (3, '2'), (3, '1')],
-               'rs': [(1, '0'), (2, '0'), (3, '0'), (4, '0'), (4, '1'), (5, '2'), (5, '1')], 'pat': [(1, '0')]}
+               'rs': [(1, '0'), (2, '0'), (3, '0'), (4, '0'), (4, '1'), (5, '2'), (5, '1')], 'pat': [(1, '0')],
+               'pipe': [(2, '0'), (3, '1'), (3, '4')]}
     for ph in ('early', 'main'):
         for i in range(len(cur[ph])):
             for idx, val in smaller.get(cur[ph][i].split(':')[0], []):
@@ -1005,7 +1031,7 @@ def process_leg(chk):
         st = res[(pi, -1)]['status']
         hist['library_statuses'][st] = hist['library_statuses'].get(st, 0) + 1
         hist['programs_leaving_nonempty_files'] += 1 if any(c for _, c in res[(pi, -1)]['files']) else 0
-        hist['early_phase_creating_file_sinks'] += 1 if any(o.startswith(('fs', 'rs', 'cfg', 'stf', 'own')) for o in p['early']) else 0
+        hist['early_phase_creating_file_sinks'] += 1 if any(o.startswith(('fs', 'rs', 'cfg', 'stf', 'own', 'pipe')) for o in p['early']) else 0
     n_diff, reported = 0, {}
     for pi, p in enumerate(progs):
         for vi, (label, exe) in enumerate(variants):
@@ -1033,6 +1059,7 @@ def process_leg(chk):
                         ob['status'], ['%s: %d lines' % (n, c.count('\n')) for n, c in ob['files'][:4]]),
                      rep, kind='header-only-process-behaviour-differs')
     hist['program_runs_compared'] = len(progs) * len(variants)
+    hist['distinct_programs'] = len({prog_text(p) for p in progs})
     hist['differences'] = n_diff
     hist['builds'] = ['library'] + [l for l, _ in variants]
     chk.cov['whole_process_programs'] = hist
@@ -1279,7 +1306,9 @@ def run():
                    'extraction ExtrOcamlBasic, no Extract Constant; ocaml/drv_amalgam.ml (directory walk, bytes <-> N)',
                    'python3 and the project generator tools/gen_qtlogger.h.py run on a scratch copy',
                    'checks/c20.py: byte comparison and diff',
-                   'the Gallina model is tied to the generator by running both (leg iii), not by proof']
+                   'the Gallina model is tied to the generator by running both (leg iii), not by proof',
+                   'checks/c20_cond.py (directive scanner, marker instrumentation of a scratch copy, condition translator) and g++ -E as the reference '
+                   'for which conditional groups a build enters; harness/h_header_exit.cpp + GNU ld initialisation order for the whole-process leg']
     chk.assumptions = ['the distribution header is /repo/qtlogger.h, the sources are the working-tree files below /repo/src',
                        'no include resolves outside src/ (absolute path or above the repository root), no CR characters, no symbolic links',
                        'the repository path contains no component called build (the generator would then skip every .cpp)']
@@ -1398,13 +1427,21 @@ def run():
         except RuntimeError as e:
             chk.fail('qtlogger.h does not compile/link as a single header', {'kind': 'header-does-not-compile', 'log': str(e)[-1500:]}, kind='header-does-not-compile')
     chk.cov.update({'programs': programs, 'disagreements_checked': checked, 'model_vs_generator_disagreements': dis_mg,
-                    'evaluations': programs, 'distinct_nontrivial': programs,
+                    'evaluations': programs + chk.cov.get('whole_process_programs', {}).get('program_runs_compared', 0)
+                                   + chk.cov.get('conditional_groups', {}).get('model_runs_compared_with_gxx_E', 0),
+                    'distinct_nontrivial': programs + chk.cov.get('whole_process_programs', {}).get('distinct_programs', 0)
+                                           + chk.cov.get('conditional_groups', {}).get('model_runs_compared_with_gxx_E', 0),
+                    'evaluations_are': 'source trees (byte comparisons) + whole-process program runs compared with the library build + translation units x '
+                                       'configurations on which the conditional-group model was compared with g++ -E',
                     'rule': 'program = one state of the source tree: the current working tree (three byte comparisons: generator/header, '
                             'model/header, model/generator) plus copies with 1-6 random edits (new headers/sources incl. build and hidden '
                             'directories, duplicate/odd/unresolvable/multi-line include directives, pragma and licence markers, blank runs, '
                             'deleted includes) for the model/generator comparison; every edited tree differs from the others; in addition the '
                             'header alone and the library sources are compiled (-fsyntax-only) without and with every single feature macro the '
-                            'sources test and must agree (quick: library files that mention the macro; thorough: all library files)',
+                            'sources test and must agree (quick: library files that mention the macro; thorough: all library files); '
+                            'whole-process programs: early phase (global constructor) / main phase / ending over the ops of harness/h_header_exit.cpp, '
+                            'fixed idioms first, then random; conditional groups: every translation unit of the library (each .cpp, the umbrella header as a '
+                            'library user sees it) and the generated header, without feature macros and with the combinable ones (thorough: each single one)',
                     'edits_applied': edit_kinds, 'exhaustive': False})
     chk.samples = samples + chk.samples
     return chk.finish()
@@ -1422,6 +1459,26 @@ def replay(path):
     committed = open(os.path.join(vlib.REPO, 'qtlogger.h'), 'rb').read()
     print('now: generator == header:', gen == committed, '| model == header:', mod == committed, '| model == generator:', gen == mod)
     rr = r['replay'] if isinstance(r['replay'], dict) else {}
+    if rr.get('kind') == 'header-only-process-behaviour-differs' and rr.get('program'):
+        exes = build_variants(['header_exit'])['header_exit']
+        hdr = exes[1]
+        for t, fl in USER_FLAGS.items():
+            if rr.get('build', '').endswith(' '.join(fl)):
+                hdr = build_user_variant('header_exit', t)[0] or hdr
+        prog = prog_of_text(rr['program'])
+        a, b = run_program(exes[0], prog), run_program(hdr, prog)
+        print('program', rr['program'], '(syntax: harness/h_header_exit.cpp)')
+        print('library build     :', json.dumps(describe_obs(a), indent=1))
+        print('header-only build :', json.dumps(describe_obs(b), indent=1))
+        print('differs in:', obs_diff(a, b) or 'nothing (not reproduced)')
+        return 0
+    if isinstance(r['replay'], list) and any(isinstance(x, dict) and str(x.get('kind', '')).startswith(('conditional-', 'cond-', 'known-conditional')) for x in r['replay']):
+        chk = vlib.Check('C20', level='translation_validation')
+        conditional_leg(chk, vlib.REPO)
+        print('now:', json.dumps(chk.cov.get('conditional_groups', {}), indent=1)[:2500])
+        for w, _ in chk.broken:
+            print('STILL:', w)
+        return 0
     if rr.get('macro'):
         m = rr['macro']
         tu = tempfile.mkdtemp(prefix='c20_cfg_')
